@@ -24,6 +24,8 @@ pub struct Obs {
     pub done: Option<bool>,
     /// result of a resolve action: Some(true) = Ok
     pub resolve_ok: Option<bool>,
+    /// results of the resolutions inside a `Batch`, in order (None for drops)
+    pub batch_resolve_ok: Vec<Option<bool>>,
     /// host-specific anomalies (each is a violation on its own)
     pub anomalies: Vec<String>,
     /// live tasks in the root command, where the host can see it
@@ -40,6 +42,8 @@ pub struct Caps {
     pub command_api: bool,
     /// the host holds the command object and can extend it from outside
     pub extend: bool,
+    /// several shell actions before the next run: 0 = no, 1 = drops followed by one call, 2 = any
+    pub batch: u8,
 }
 
 pub trait Host {
@@ -104,6 +108,23 @@ fn obs_event(e: Event, out: &mut Obs) {
         other => out
             .anomalies
             .push(format!("unexpected event from a task: {other:?}")),
+    }
+}
+
+/// apply the members of a batch to a request table without letting anything run
+fn apply_batch_quietly(table: &mut HashMap<Key, ReqObj>, subs: &[Action], out: &mut Obs) {
+    for s in subs {
+        match s {
+            Action::Resolve { site, arg, val } => {
+                let obj = table.get_mut(&(*site, *arg)).expect("request in table");
+                out.batch_resolve_ok.push(Some(resolve_obj(obj, *val)));
+            }
+            Action::DropReq { site, arg } => {
+                drop(table.remove(&(*site, *arg)).expect("request in table"));
+                out.batch_resolve_ok.push(None);
+            }
+            other => unreachable!("not a batch member: {other:?}"),
+        }
     }
 }
 
@@ -180,6 +201,7 @@ impl<Ef: LabEffect> Host for Direct<Ef> {
             done: true,
             command_api: true,
             extend: true,
+            batch: 2,
         }
     }
     fn prepare(&mut self, program: &Cmd) {
@@ -214,6 +236,7 @@ impl<Ef: LabEffect> Host for Direct<Ef> {
                 let cmd = self.cmd.take().expect("started");
                 self.cmd = Some(cmd.and(build::<Ef>(c)));
             }
+            Action::Batch(subs) => apply_batch_quietly(&mut self.table, subs, &mut out),
         }
         self.observe(&mut out);
         out
@@ -317,6 +340,7 @@ impl<Ef: LabEffect> Host for StreamHost<Ef> {
             done: true,
             command_api: true,
             extend: true,
+            batch: 2,
         }
     }
     fn prepare(&mut self, program: &Cmd) {
@@ -357,6 +381,7 @@ impl<Ef: LabEffect> Host for StreamHost<Ef> {
                 self.flag.0.store(true, Ordering::SeqCst);
                 self.ended = false;
             }
+            Action::Batch(subs) => apply_batch_quietly(&mut self.table, subs, &mut out),
         }
         let woken = self.flag.0.load(Ordering::SeqCst);
         self.drain(woken, false, &mut out);
@@ -505,6 +530,7 @@ impl<Ef: LabEffect> Host for EagerHost<Ef> {
             done: true,
             command_api: true,
             extend: false,
+            batch: 2,
         }
     }
     fn prepare(&mut self, program: &Cmd) {
@@ -540,6 +566,7 @@ impl<Ef: LabEffect> Host for EagerHost<Ef> {
             }
             Action::Noop => {}
             Action::Extend(_) => unreachable!(),
+            Action::Batch(subs) => apply_batch_quietly(&mut self.table, subs, &mut out),
         }
         self.collect(asked, &mut out);
         out
@@ -647,6 +674,7 @@ where
             done: false,
             command_api: !self.legacy,
             extend: false,
+            batch: if self.legacy { 0 } else { 1 },
         }
     }
     fn start(&mut self, program: &Cmd) -> Obs {
@@ -693,6 +721,37 @@ where
             }
             Action::Noop => self.core.process_event(Event::Noop),
             Action::Extend(_) => unreachable!("the core owns the command"),
+            Action::Batch(subs) => {
+                // every member but the last is a drop (not a core call); the last one is the call
+                let (last, drops) = subs.split_last().expect("non-empty batch");
+                for d in drops {
+                    let Action::DropReq { site, arg } = d else { unreachable!("only drops before the call") };
+                    drop(self.table.remove(&(*site, *arg)).expect("request in table"));
+                    out.batch_resolve_ok.push(None);
+                }
+                match last {
+                    Action::Resolve { site, arg, val } => {
+                        let obj = self.table.get_mut(&(*site, *arg)).expect("request in table");
+                        let r = match obj {
+                            ReqObj::Op(r) => self.core.resolve(r, Val(*val)),
+                            ReqObj::Sig(r) => self.core.resolve(r, ()),
+                        };
+                        out.batch_resolve_ok.push(Some(r.is_ok()));
+                        match r {
+                            Ok(effects) => effects,
+                            // a rejected resolution returns before the core processes anything:
+                            // like a drop it is not a call that runs the core
+                            Err(_) => self.core.process_event(Event::Noop),
+                        }
+                    }
+                    Action::DropReq { site, arg } => {
+                        drop(self.table.remove(&(*site, *arg)).expect("request in table"));
+                        out.batch_resolve_ok.push(None);
+                        self.core.process_event(Event::Noop)
+                    }
+                    other => unreachable!("not a batch member: {other:?}"),
+                }
+            }
         };
         self.observe(effects, &mut out);
         out
@@ -930,6 +989,7 @@ where
             done: false,
             command_api: true,
             extend: false,
+            batch: 0,
         }
     }
     fn start(&mut self, program: &Cmd) -> Obs {
@@ -969,7 +1029,7 @@ where
                 self.send_event(&Event::Noop)
             }
             Action::Noop => self.send_event(&Event::Noop),
-            Action::Extend(_) => unreachable!("the core owns the command"),
+            Action::Extend(_) | Action::Batch(_) => unreachable!("not available over the bridge"),
         };
         self.observe(r, &mut out);
         out
